@@ -217,7 +217,7 @@ func c16Invariants(k c16Case, base, res vlib.Resp) *vlib.Failure {
 
 func c16Alphabet() (origins, acrms, acrhs, acrpns [][]string) {
 	origins = [][]string{{"https://a.example"}, {"https://x.a.example"}, {"https://denied.example"}, {"https://a.example:8080"}, {"garbage"}, {"https://a.example/"}, {""}, {"null"}, {"https://a.example", "https://denied.example"}, {"https://denied.example", "https://a.example"}}
-	acrms = [][]string{{"GET"}, {"PUT"}, {"put"}, {"DELETE"}, {"@@"}, {""}, {"PUT", "DELETE"}, {"HEAD"}, {"PATCH"}, {"TRACE"}, {"connect"}, {"OPTIONS"}}
+	acrms = [][]string{{"GET"}, {"PUT"}, {"put"}, {"DELETE"}, {"@@"}, {""}, {"PUT", "DELETE"}, {"HEAD"}, {"PATCH"}, {"TRACE"}, {"connect"}, {"OPTIONS"}, {"P\xffT"}, {"P\u00dcT"}, {"PU T"}}
 	acrhs = [][]string{nil, {}, {"x-a"}, {"x-a,x-b"}, {"x-a,x-z"}, {"x-z"}, {"x-b,x-a"}, {"x-a", "x-b"}, {"x-b", "x-a"}, {"\x00"}, {"X-A"}, {"authorization"}, {"authorization,x-a"}, {" x-a ,x-b"}, {",,x-a"}, {strings.Repeat(",", 17)}, {"x-a,x-a"}}
 	acrpns = [][]string{nil, {"true"}, {"TRUE"}, {"true", "false"}, {"false"}, {""}}
 	return
